@@ -21,7 +21,9 @@ CHECKS = {
         text='Explicit-state model checking (E2) of the instance-derivation transition system of every canonical selection '
              'spec: states are the real DSG objects, transitions the real get_for_apply_selection_choice calls for every '
              'offered choice and option (all orders), BFS with canonical state hashing; closure invariants on every state, '
-             'leaf laws and both set inclusions against the reference enumeration, order independence.',
+             'leaf laws and both set inclusions against the reference enumeration, order independence; shape families (cycles, diamonds, '
+             'non-derivable parts, incompatibility shapes) and staged build histories (an edge added in place to the initialised graph, '
+             'initialised again).',
         note='Trusted: reference closure semantics (vf/refmodel.py); states merged only when graph and assignment agree.',
         technique='explicit-state BFS over the real transition function, invariants on all states',
         ref='4 (C02), 3.5 E2'),
@@ -55,7 +57,8 @@ CHECKS = {
         text='E1 (graph level): every spec x both encoders x every raw vector, with and without materialising the instance, and '
              'every enumeration row: active => owning choice / design-variable node exists in the decoded instance, inactive => '
              'canonical value, variables not flagged conditionally active are always active, all paths report the same activeness. '
-             'The assignment-manager level (every registered connection encoder) is part of the C10 exploration.',
+             'Assignment-manager level: connector settings with conditional connectors x every registered connection encoder through the '
+             'C10 manager exploration, its C07 laws reported here.',
         note='Trusted: owner existence read from the decoded instance graph.',
         technique='explicit enumeration of all inputs in bounds, cross-path agreement oracle',
         ref='4 (C07)'),
@@ -81,8 +84,9 @@ CHECKS = {
         text='E4: the real EncoderSelector runs under a scripted time limiter; for every setting of the scope the default script, every '
              'single deviation (each limiter call answered with TimeoutError / MemoryError, each candidate rejected with '
              'InvalidPatternEncoder / DetectedHighImpRatio), all pairs (thorough) and the all-timeout extremes are executed to '
-             'completion, each from a cold cache; 5 cache histories (cold, warm, matrix-only, selection-only, written by another '
-             'process with another hash seed) must give identical variables, decode tables and matrices; the returned manager must '
+             'completion, each from a cold cache; complement scripts (only two candidates run) for three settings; 6 cache histories (cold, '
+             'warm, matrix-only, selection-only, written by another process with another hash seed, matrix cache first written by '
+             'enumerating a single existence pattern) must give identical variables, decode tables and matrices; the returned manager must '
              'satisfy the C10 laws; cache keys are compared over all pairs of ~2.9e5 enumerated settings.',
         note='Assumes the limiter seam (name run_timeout in the selector module) captures every time dependence; numeric-stack versions '
              'cannot be varied offline.',
@@ -160,9 +164,9 @@ CHECKS = {
 
     'C19': dict(
         text='E5: the real function body of run_timeout (re-instantiated over modelled multiprocessing/threading/ctypes/gc) is executed '
-             'under every schedule with <= 3 (thorough 4) deviations from the default choice for all 624 worker scripts (<= 3 steps from '
-             '{interruptible, native, swallow-KeyboardInterrupt/Exception/BaseException} x {return, ValueError, TimeoutError subclass, '
-             'KeyboardInterrupt}), without bound for the shortest scripts, for back-to-back and nested calls; outcome law, no interrupt to '
+             'under every schedule with <= 3 (thorough 4) deviations from the default choice for all 780 worker scripts (<= 3 steps from '
+             '{interruptible, native, swallow-KeyboardInterrupt/Exception/BaseException} x {return, return an exception instance, ValueError, '
+             'TimeoutError subclass, KeyboardInterrupt}), without bound for the shortest scripts, for back-to-back and nested calls; outcome law, no interrupt to '
              'the caller, nothing left running, no deadlock on every execution. The model facts are calibrated on the real interpreter '
              'at every run and 664 (thorough: all) plans are co-simulated on the real ThreadPool/ctypes through gating proxies; a '
              'mismatch breaks the check.',
